@@ -6,6 +6,9 @@
       ra2 <line> <start>             read_table_line_AUTOUGH2
       kfl <line> <k0,k1,..>          key_from_line
       tok <line> <I>                 row_tokens (the specification; tied to the Python oracle tokenizer)
+      adr <cols> <rows> <rev> <key>  listingtable.__getitem__ (Table.v): cols = hex names ','-separated; rows = row keys ','-separated,
+                                     each key its hex names joined by '.', a leading 't' marks a tuple; cell (i,j) = 1000*i + j + 1;
+                                     key = 'i'<int> | 's'<hex> | 't'<hex.hex..>
       demo -|A                       the lines of the demonstration listing of Witness2.v (A: the AUTOUGH2 one of Witness3.v), so that the
                                      real reader can be run on the very text the Coq examples are about
       achk - <tags> <line> <line> ...   the same for an AUTOUGH2 listing (afile sets = the lines, CheckAUT.afile_check = Some _)
@@ -336,6 +339,33 @@ Definition run_achk (tags : str) (lines : list str) : str :=
            end
   end.
 
+(** *** addressing: the model of listingtable.__getitem__ over integer cells *)
+Definition parse_key (x : str) : pykey :=
+  match x with
+  | "t" :: r => KT (match r with [] => [] | _ => map unhex (split_c "." r) end)
+  | "s" :: r => KS (unhex r)
+  | _ => KS []
+  end.
+Definition show_key (k : pykey) : str := match k with KS x => "s" :: hex x | KT l => "t" :: join_with (s2l ".") (map hex l) end.
+Definition show_rowdict (T : table Z) (r : rowdict Z) : str :=
+  s2l "ROW " ++ show_key (rd_key Z r) ++ s2l " "
+  ++ join_with comma (map (fun c => match rd_get Z r c with Some v => show_z v | None => s2l "?" end) (cols Z T)).
+Definition run_adr (cs rs rv key : str) : str :=
+  let colnames := match cs with [] => [] | _ => map unhex (split_c "," cs) end in
+  let rownames := match rs with [] => [] | _ => map parse_key (split_c "," rs) end in
+  let ncol := length colnames in
+  let T := {| cols := colnames; rows := rownames; allow_rev := flag rv;
+              data := map (fun i => map (fun j => (1000 * Z.of_nat i + Z.of_nat j + 1)%Z) (seq 0 ncol)) (seq 0 (length rownames)) |} in
+  match key with
+  | "i" :: n => let i := nat_of_str n in
+                if (i <? length rownames)%nat then show_rowdict T (row_by_index Z 0%Z T i) else s2l "RAISE IndexError"
+  | _ => match getitem Z Z.opp 0%Z T (parse_key key) with
+         | RCol _ l => s2l "COL " ++ join_with comma (map show_z l)
+         | RRow _ r => show_rowdict T r
+         | RNone _ => s2l "NONE"
+         end
+  end.
+
 Definition run_case (line : str) : str :=
   match (match line with "f" :: _ | "a" :: _ => split_fast tab line | _ => fields line end) with
   | k :: h :: args =>
@@ -386,6 +416,10 @@ Definition run_case (line : str) : str :=
       else if str_eqb k (s2l "tok") then
         match args with
         | [i] => s2l "T " ++ join_with comma (map hex (row_tokens (flag i) s))
+        | _ => s2l "BADCASE" end
+      else if str_eqb k (s2l "adr") then
+        match args with
+        | [rs; rv; key] => run_adr h rs rv key
         | _ => s2l "BADCASE" end
       else s2l "BADCASE"
   | _ => s2l "BADCASE"
